@@ -79,16 +79,22 @@ def stmt_kinds(stmts):
     return tuple(s.split(":")[0] for s in stmts)
 
 
-def applicable(r):
-    """C11 speaks about a failed *recreate* (move and copy); the ALTER path of recreate='auto' is not its subject"""
-    return r["outcome"] != "ok" and (not r["stmts"] or r["stmts"][0] == "createTmp")
+def applicable(r, case=None):
+    """C11 speaks about a failed *recreate* (move and copy); the ALTER path of recreate='auto' is not its subject.  Whether the batch
+    recreates is decided from the input (not from the first statement the implementation emitted: a statement issued *before*
+    CREATE TABLE of the new table belongs to the recreate as well)"""
+    if r["outcome"] == "ok":
+        return False
+    if case is not None and not case.get("battery"):
+        return bc.recreates(case)
+    return not r["stmts"] or r["stmts"][0] == "createTmp"
 
 
 def judge(ctx, pending):
     ops = []
     for case, r in pending:
         ops.append(bc.model_op(case, r))
-        failed = applicable(r)
+        failed = applicable(r, case)
         judged = failed and (r["before"]["orig"] or case.get("orig0"))
         ops.append(bc.spec11_op(case, r, "fresh") if judged else {"op": "noop"})
         ops.append(bc.spec11_op(case, r, "same") if judged else {"op": "noop"})
@@ -115,7 +121,7 @@ def judge(ctx, pending):
         if case.get("schema") and bc.main_untouched(r):
             why = bc.main_untouched(r)
             ctx.fail(input_of(case), "schema: %s" % "; ".join(why)[:500], impl=bc.brief(r), tags=["schema"])
-        if applicable(r):
+        if applicable(r, case):
             for view, s in (("fresh", s1), ("same", s2)):
                 if "holds" in s and s["holds"] is not True:
                     why = s.get("why") or [json.dumps(s)]
@@ -245,6 +251,12 @@ def run(ctx, n_cases=None, rng_name="main"):
         copy_from = rng.random() < 0.3
         if i < 2:
             ops = bg.ordering_battery(t)[i * 3 + rng.randrange(2)]      # the add_column position branches, deterministically
+            recreate = "always"
+        if 2 <= i < 8 and t["indexes"]:
+            # an existing index dropped and re-created under the same name in one batch (alone, or after the random ops)
+            ixn = t["indexes"][0]["name"]
+            redo = [{"op": "drop_index", "name": ixn}, {"op": "create_index", "name": ixn, "cols": ["id"], "unique": False}]
+            ops = redo if i % 2 == 0 else [o for o in ops if o["op"] not in ("drop_index", "create_index")] + redo
             recreate = "always"
         pr = bg.gen_partial_reordering(rng, t, ops) if rng.random() < 0.1 else None
         # 20%: the table lives in an ATTACHed database (schema="aux"), half of them with a different table of that name in main
